@@ -12,14 +12,14 @@ def run(ctx):
     real = c13real.run_real(ctx)
     viol += real["violations"]
     ctx.log("c13 (real poller over a unix socket, private /run): %s" % {k: v for k, v in real.items() if k not in ("violations", "samples")})
-    scripts = [[[3.2, "answer"], [8.5, "absent"], [3.2, "unsync"], [3.0, "answer"]]]
+    scripts = [[[3.6, "answer"], [9.0, "absent"], [3.6, "unsync"], [3.6, "answer"]]]
     if not q:
-        scripts += [[[2.8, "absent"], [3.5, "answer"], [3.0, "absent"], [3.0, "answer"], [9.0, "absent"]], [[4.0, "answer"], [4.0, "unsync"], [8.0, "absent"], [4.0, "unsync"]], [[3.0, "unsync"], [3.0, "answer"], [12.0, "absent"]]]
+        scripts += [[[2.8, "absent"], [3.8, "answer"], [3.2, "absent"], [3.8, "answer"], [9.5, "absent"]], [[4.0, "answer"], [4.0, "unsync"], [9.0, "absent"], [4.0, "unsync"]], [[3.0, "unsync"], [3.8, "answer"], [12.0, "absent"]]]
     tl_judged, tl_viol, tl_samples, tl_incon = c13real.run_timelines(ctx, scripts)
     viol += tl_viol
     ctx.log("c13 (whole release binary + chronyd stand-in, real time): %d status samples judged in %d timelines" % (tl_judged, len(scripts)))
     inconclusive = incon or real.get("inconclusive") or tl_incon
-    if not inconclusive and tl_judged < 30:
+    if not inconclusive and tl_judged < 20:
         inconclusive = "whole-binary timelines yielded only %d judged samples" % tl_judged
     if agg["shards_lost"]:
         inconclusive = "%d shards did not finish" % agg["shards_lost"]
